@@ -108,6 +108,23 @@ NEEDS = {
     'S8-C15': "solvePDE with an all-zero boundary right-hand side and at least two RHS contributions: the first RHS term of the caller becomes the accumulator",
     'S8-C16': "a flat python list of numbers (or another array-like non-array) passed as an equation term: np.ndim classifies it by nesting depth instead of refusing it",
     'S8-C17': "TVD term with some |dphi/dx| in [1e-16, 1e-8] (np.isclose default atol in a rewritten _fsign)",
+    'S9-C01': "two edits: copy() reuses the original's cached boundary term + solvePDE accumulates into it without a protective copy; b = a.copy() with clean flags, solvePDE(a) with an RHS term, then solvePDE(b)",
+    'S9-C02': "two edits: cell_size_array returns arc lengths on angular axes + diffusionTermSpherical3D takes its sizes from it (metric applied twice); SphericalGrid3D, diffusion, angular dependence",
+    'S9-C03': "two edits: left.c created with shape (Ny,) + the polar row builder writes -BC.left.c[0]; PolarGrid2D with a left-face c that varies along theta",
+    'S9-C04': "two edits: solvePDE switches BCsTerm_precalc back off + copy() hands over _BCsTerm; explicit result, solvePDE, BC edit, apply_BCs / explicit step, copy(), solvePDE(copy)",
+    'S9-C05': "two edits: convectionTvdRHSCylindrical2D takes its axial part from convectionTvdRHS2D(...)[2] + that function returns an alias of the total as its y part; CylindricalGrid2D, radial velocity, active limiter",
+    'S9-C06': "same pair of ideas as S9-C01 (shared _BCsTerm through copy() + accumulation without a protective copy), seen through the uniform-field property",
+    'S9-C07': "two edits: the upwind dispatcher tests the curvilinear classes with isinstance + SphericalGrid1D derives from CylindricalGrid1D; SphericalGrid1D shell with a divergence-free velocity gets the cylindrical matrix",
+    'S9-C08': "two edits: MeshStructure.cellvolume cached on the mesh + diffusionTermPolar2D divides that array in place; PolarGrid2D, diffusion matrix assembled more than once on one mesh",
+    'S9-C09': "same pair of ideas as S9-C01, seen through the no-stale-state property (branching a run with copy())",
+    'S9-C10': "two edits: MeshStructure stores an `_equispaced` flag from np.allclose + Grid3D._getCellVolumes returns a constant array when it is set; non-uniform Grid3D whose size differences are below 1e-8",
+    'S9-C11': "two edits: cell_size_array caches per mesh in a WeakKeyDictionary + MeshStructure gets __eq__/__hash__ that ignore the interior spacing; a second mesh of the same class, counts and end points",
+    'S9-C12': "two edits: copy() keeps BCsTerm_precalc of the original + solvePDE tests hasattr(phi, '_BCsTerm'); copy of an explicit result, BC edit on the copy, solvePDE",
+    'S9-C13': "two edits: _fsign gets a new `flush` parameter in front of eps1 + one caller passes its threshold positionally (it lands in `flush`); CylindricalGrid3D, theta differences at round-off level",
+    'S9-C14': "two edits: BoundaryConditionsBase.__deepcopy__ (shallow copy + deep-copied faces) + a `_faces` tuple used by `modified`; the result of any operator / copy() tracks the operand's faces",
+    'S9-C15': "two edits: cellvolume becomes a cached_property + convectionTvdRHSSpherical1D normalises it in place; repeated TVD assembly on SphericalGrid1D",
+    'S9-C16': "two edits: the periodic setter stores the value as given + the Spherical3D row builder tests `is not True`; a radial face flagged periodic with a truthy non-bool (numpy bool, 1)",
+    'S9-C17': "two edits: cell_size_array returns arc lengths on theta axes + convectionTvdRHSPolar2D takes its sizes from it (divides by r_p twice); PolarGrid2D, TVD term, azimuthal velocity",
     'S2-C16': "assigning FaceVariable.yvalue on CylindricalGrid2D / PolarGrid2D / 3-D curvilinear grids (subclasses of Grid2D/Grid3D) where the label is not documented",
 }
 
@@ -160,6 +177,18 @@ BEFORE = {
     'S8-C12': "exit 2 (np.isinf unmodelled); modelled (symbolic data are finite), the np.allclose branch forks",
     'S8-C13': "reported at once - np.piecewise is outside the modelled subset of limiter formulas, which C13.F3 reports as a non-elementwise construct",
     'S8-C16': "C16 silent (L7 probed None / str / dict / objects / tuples only); np.ndim modelled, L7 probes python numbers, flat and nested lists, CellVariable objects, numpy scalars, 0-d and 3-d arrays",
+    'S9-C01': "reported, but through C04.S1's old reading 'no write into the cached boundary system', which also fired on the harmless half (a false alarm, see DESIGN 9.5); now reported by C09.P10 (polluted cache reached by copy / solve / solve) and S1's post-state clause",
+    'S9-C04': "C09 silent: the state needs five operations (explicit step, solve, edit, apply_BCs, copy) before the failing solve; C09.P10 explores edit histories breadth-first over abstract protocol states",
+    'S9-C06': "as S9-C01",
+    'S9-C08': "no check reported it; C15.Z6 (a repeated call with the same arguments returns the same values) added - reported by C15.Z6 and C01/C02, not by C08 (see DESIGN 9.8)",
+    'S9-C09': "as S9-C01",
+    'S9-C10': "exit 2 (a branch on all(np.allclose(..) for ..): a compound of tolerance predicates); compound fork predicates are decided atom by atom",
+    'S9-C11': "exit 2 (weakref.WeakKeyDictionary, user-defined __eq__/__hash__ of dictionary keys): a documented analysis limit - two meshes that compare equal are outside every world the checks build",
+    'S9-C12': "C09 silent (three-operation history through copy() of an explicit result); C09.P10",
+    'S9-C13': "exit 2 (C13 crashed on the bool default); C13.F8 analyses _fsign under the argument binding of every call site that passes more than the field",
+    'S9-C14': "no check reported it (deep_copy ignored a user-defined __deepcopy__); __deepcopy__ / copy.copy / setattr modelled, reported by C14.O4",
+    'S9-C15': "exit 2 (functools.cached_property unmodelled); modelled, reported by C15.Z6",
+    'S9-C16': "C16 silent (L3 switched the flag on with True only); L3 also uses a truthy non-bool through the public setter",
     'S-C04': "C04 silent in round 1 (caught by C09 only); C04.S8 added",
     'S-C15': "C05 exit 2 in round 1 (case-split budget); recursive case split",
 }
@@ -181,7 +210,7 @@ def main():
         meta = {
             'id': d,
             'breaks_property': prop,
-            'origin': 'independent sub-agent given only the property text and a scratch worktree' + (' (second round)' if d.startswith('S2') else ' (third round)' if d.startswith('S3') else ' (fourth round)' if d.startswith('S4') else ' (fifth round)' if d.startswith('S5') else ' (sixth round)' if d.startswith('S6') else ' (seventh round, with a focus area per property)' if d.startswith('S7') else ' (eighth round: triggers that are special values, sizes or types)' if d.startswith('S8') else ''),
+            'origin': 'independent sub-agent given only the property text and a scratch worktree' + (' (second round)' if d.startswith('S2') else ' (third round)' if d.startswith('S3') else ' (fourth round)' if d.startswith('S4') else ' (fifth round)' if d.startswith('S5') else ' (sixth round)' if d.startswith('S6') else ' (seventh round, with a focus area per property)' if d.startswith('S7') else ' (eighth round: triggers that are special values, sizes or types)' if d.startswith('S8') else ' (ninth round: two cooperating edits, each harmless alone)' if d.startswith('S9') else ''),
             'files_changed': files,
             'needs_to_manifest': NEEDS.get(d) or old.get('needs_to_manifest', ''),
             'confirmed_by_me': {
@@ -191,7 +220,7 @@ def main():
                 'demo_exit_without_change': ver.get('demo_without_change_exit'),
                 'confirmed': ver.get('confirmed'),
             },
-            'checks_run': ('tools/try_patch.py: scratch copy of /repo/src + docs with patch.diff applied, PV_REPO pointed at it, every ./check CNN --tier quick' if d[:2] in ('S6', 'S7', 'S8') else 'tools/try_seed.py checks: git -C /repo apply patch.diff; every ./check CNN --tier quick; git -C /repo checkout -- .'),
+            'checks_run': ('tools/try_patch.py: scratch copy of /repo/src + docs with patch.diff applied, PV_REPO pointed at it, every ./check CNN --tier quick' if d[:2] in ('S6', 'S7', 'S8', 'S9') else 'tools/try_seed.py checks: git -C /repo apply patch.diff; every ./check CNN --tier quick; git -C /repo checkout -- .'),
             'caught_by': caught,
             'analysis_errors': {k: r['errors'][:1] for k, r in sorted(chk.items()) if r['exit'] == 2},
             'silent': [k for k, r in sorted(chk.items()) if r['exit'] == 0],
